@@ -402,8 +402,8 @@ func (e *Env) bin(n *EBin) Val {
 			}
 			return Val{K: new(big.Int).Rsh(a.K, uint(b.K.Int64()))}
 		}
-		if b.K == nil {
-			e.fail("shift by non-constant in contract")
+		if b.K == nil && (g.mode != "bv" || b.GT == nil) {
+			e.fail("shift by non-constant in contract (only in bv mode)")
 		}
 		op := token.SHL
 		if n.Op == ">>" {
